@@ -18,7 +18,7 @@
    precomputed" holds by construction of the model and is checked against the implementation in
    the correspondence check. *)
 From mathcomp Require Import all_ssreflect all_algebra.
-From Verif Require Import MExp MExpMx KPCovR KPCovRP.
+From Verif Require Import MExp MExpMx KPCovR KPCovRP KPCovRExtP KPCovRState KPCovRStateP KPCovRGuard KPCovRGuardP.
 Import GRing.Theory Num.Theory.
 Local Open Scope ring_scope.
 
@@ -203,3 +203,199 @@ Example C05_nonvacuous :
     penrose ((eval_mx env (tn_prog n n n))^T *m eval_mx env (tn_prog n n n)) (env n n vG) /\
     (env 1%N 1%N va) ord0 ord0 = 2%:R^-1.
 Proof. exact env_id_hyps. Qed.
+
+(* ==================================================================================================
+   Round 3.
+   ================================================================================================== *)
+
+(* ---- the "equivalent ridge regressor" ----------------------------------------------------------
+   C05_linear_is_pcovr ASSUMES Wx = X^T W.  That is what "equivalent" means: if W are the dual
+   weights of kernel ridge on the linear kernel, (X X^T + alpha I) W = Y, and Wx the weights of ridge
+   regression without intercept, (X^T X + alpha I) Wx = X^T Y, with the same alpha > 0, then
+   Wx = X^T W (any n, d, p; X of any rank). *)
+Theorem C05_ridge_dual_primal :
+  forall (F : rcfType) (n d p : nat) (X : 'M[F]_(n, d)) (Y W : 'M[F]_(n, p)) (Wx : 'M[F]_(d, p)) (alpha : F),
+    0 < alpha ->
+    (X *m X^T + alpha *: 1%:M) *m W = Y ->
+    (X^T *m X + alpha *: 1%:M) *m Wx = X^T *m Y ->
+    Wx = X^T *m W.
+Proof. exact ridge_dual_primal. Qed.
+Print Assumptions C05_ridge_dual_primal.
+
+(* ... so the linear-kernel clause holds with the two regressors given by their defining equations *)
+Theorem C05_linear_is_pcovr_ridge :
+  forall (F : rcfType) (n d p k v : nat) (env : env_mx F) (alpha : F),
+    let K := env n n vK in let Kt := env v n vKt in let X := env n d vX in
+    let Xt := env v d vXt in let W := env n p vW in let Wx := env d p vWx in
+    let Y := env n p vY in
+    let Yh := env n p vYh in let V := env n k vV in let S := env k 1%N vS in
+    let tol := (env 1%N 1%N vtol) ord0 ord0 in let PT := env k n vPT in
+    K = X *m X^T -> Kt = Xt *m X^T ->
+    0 < alpha ->
+    (K + alpha *: 1%:M) *m W = Y ->
+    (X^T *m X + alpha *: 1%:M) *m Wx = X^T *m Y ->
+    [/\ Wx = X^T *m W,
+        eval_mx env (ktilde_prog n p) = eval_mx env (pc_ktilde n d p),
+        eval_mx env (transform_prog n p k v) = eval_mx env (@pc_transform n d p k v)
+      & Yh = K *m W ->
+        eval_mx env (ktilde_prog n p) *m V = V *m diag_mx S^T -> V^T *m V = 1%:M ->
+        0 <= tol -> (forall i, tol < S i ord0) ->
+        penrose (eval_mx env (T_prog n p k)) PT ->
+        eval_mx env (predict_prog n p k v) = eval_mx env (@pc_predict n d p k v)].
+Proof. exact linear_is_pcovr_ridge. Qed.
+Print Assumptions C05_linear_is_pcovr_ridge.
+
+Example C05_ridge_nonvacuous :
+  forall (F : rcfType) (n p : nat) (Y : 'M[F]_(n, p)),
+    let X : 'M[F]_n := 1%:M in let W := 2%:R^-1 *: Y in
+    [/\ (0 : F) < 1, (X *m X^T + 1 *: 1%:M) *m W = Y & (X^T *m X + 1 *: 1%:M) *m W = X^T *m Y].
+Proof. exact ridge_hyps_instance. Qed.
+
+(* ---- the estimator OBJECT: histories of set_params / fit ------------------------------------------
+   Model/KPCovRState.v: constructor arguments + fitted attributes, including the attributes a later
+   fit leaves behind (centerer_ after center=False, regressor_ after regressor="precomputed", ptx_
+   after fit_inverse_transform=False).  The primitive operations (kernel evaluation, KernelNormalizer,
+   regression, _fit, the loss, the matrix product) are ARBITRARY functions: the statements are about
+   the plumbing and hold for every interpretation.  [same_obs s1 s2]: equal constructor arguments,
+   X_fit_, pkt_, pky_, pty_, ptk_ and equal results (value or exception class) of transform, predict
+   and score on every input. *)
+Section ObjectModel.
+  Variables mat kid num rg cen : Type.
+  Variable getk : kid -> mat -> mat -> mat.
+  Variable kn_fit : mat -> cen.
+  Variable kn_tr : cen -> mat -> mat.
+  Variable kn_vv : cen -> mat -> mat -> mat.
+  Variable regress : rg -> mat -> mat -> mat.
+  Variable lstsq : num -> mat -> mat -> mat.
+  Variable fit_core : num -> mat -> mat -> mat -> (mat * mat)%type.
+  Variable loss : num -> mat -> mat -> mat -> mat -> mat -> mat -> mat.
+  Variable mmul : mat -> mat -> mat.
+  Notation fit := (@fit mat kid num rg cen getk kn_fit kn_tr regress lstsq fit_core mmul).
+  Notation transform := (@transform mat kid num rg cen getk kn_tr mmul).
+  Notation predict := (@predict mat kid num rg cen getk kn_tr mmul).
+  Notation score := (@score mat kid num rg cen getk kn_tr kn_vv loss).
+  Notation run := (@run mat kid num rg cen getk kn_fit kn_tr regress lstsq fit_core mmul).
+  Notation same_obs := (@same_obs mat kid num rg cen getk kn_tr kn_vv loss mmul).
+  Notation init := (@init mat kid num rg cen).
+  Notation set_params := (@set_params mat kid num rg cen).
+  Notation SetParams := (@SetParams mat kid num rg).
+  Notation Fit := (@Fit mat kid num rg).
+  Notation with_centerer := (@with_centerer mat kid num rg cen).
+  Notation center_off := (@center_off kid num rg).
+  Notation center_on := (@center_on kid num rg).
+  Notation as_precomputed := (@as_precomputed kid num rg).
+  Notation as_normalized := (@as_normalized kid num rg).
+
+  (* refit = fresh fit, after ANY history (any list of set_params / fit events from any constructor
+     arguments): set_params(p); fit(X, Y, W) leaves the object indistinguishable from a new
+     estimator constructed with p and fitted once *)
+  Theorem C05_refit_is_fresh_fit :
+    forall (p0 p : cargs kid num rg) (h : list (event mat kid num rg)) (X Y : mat) (W : option mat),
+      same_obs (run (init p0) (h ++ (SetParams p :: Fit X Y W :: nil))) (fit (init p) X Y W).
+  Proof. exact: refit_is_fresh_fit. Qed.
+
+  (* the guard that makes it so: with center=False the three methods never read centerer_, whatever
+     it holds *)
+  Theorem C05_center_guard_reads_argument :
+    forall (st : state mat kid num rg cen) (c : option cen),
+      p_center (prm st) = false ->
+      (forall Xn, transform (with_centerer st c) Xn = transform st Xn) /\
+      (forall Xn, predict (with_centerer st c) Xn = predict st Xn) /\
+      (forall Xn Yn, score (with_centerer st c) Xn Yn = score st Xn Yn).
+  Proof. exact: center_guard. Qed.
+
+  (* not vacuous: after fit(center=True); set_params(center=False); fit the attribute IS still there
+     (a fresh object has none), and a transform keyed on its presence would centre the new kernel
+     with the normaliser of the FIRST data set *)
+  Theorem C05_stale_centerer_is_present :
+    forall (p : cargs kid num rg) (X1 Y1 X2 Y2 : mat) (W1 W2 : option mat) (Xn : mat),
+      p_center p = true ->
+      let st := run (init p) (Fit X1 Y1 W1 :: SetParams (center_off p) :: Fit X2 Y2 W2 :: nil) in
+      let c1 := kn_fit (getk (p_kernel p) X1 X1) in
+      centerer st = Some c1 /\ centerer (fit (init (center_off p)) X2 Y2 W2) = None /\
+      exists P, pkt st = Some P /\
+        transform st Xn = Val (mmul (getk (p_kernel p) Xn X2) P) /\
+        @transform_hasattr mat kid num rg cen getk kn_tr mmul st Xn
+        = Val (mmul (kn_tr c1 (getk (p_kernel p) Xn X2)) P).
+  Proof. exact: stale_centerer_summary. Qed.
+
+  (* an unfitted object raises NotFittedError; center switched on by set_params WITHOUT a refit on an
+     object that was never centred raises AttributeError in all three methods (what the code does) *)
+  Theorem C05_unfitted_and_unrefitted_raise :
+    forall (p : cargs kid num rg) (X Y : mat) (W : option mat) (Xn Yn : mat),
+      (transform (init p) Xn = NotFitted /\ predict (init p) Xn = NotFitted /\ score (init p) Xn Yn = NotFitted) /\
+      (p_center p = false ->
+       let st := set_params (fit (init p) X Y W) (center_on p) in
+       transform st Xn = AttrError /\ predict st Xn = AttrError /\ score st Xn Yn = AttrError).
+  Proof. exact: raises_summary. Qed.
+
+  (* named kernel = that kernel precomputed, as a statement about two objects ([kpre] is
+     kernel="precomputed": _get_kernel returns its first argument) *)
+  Theorem C05_named_is_precomputed :
+    forall (kpre : kid), (forall A B, getk kpre A B = A) ->
+    forall (p : cargs kid num rg) (X Y : mat) (W : option mat),
+      let K := getk (p_kernel p) X X in
+      let s1 := fit (init p) X Y W in
+      let s2 := fit (init (as_precomputed kpre p)) K Y W in
+      pkt s1 = pkt s2 /\ pky s1 = pky s2 /\ pty s1 = pty s2 /\ ptk s1 = ptk s2 /\
+      centerer s1 = centerer s2 /\ regr_W s1 = regr_W s2 /\
+      (forall Xn, transform s1 Xn = transform s2 (getk (p_kernel p) Xn X)) /\
+      (forall Xn, predict s1 Xn = predict s2 (getk (p_kernel p) Xn X)) /\
+      (forall Yn, score s1 X Yn = score s2 K Yn).
+  Proof. exact: named_is_precomputed. Qed.
+
+  (* center=True = an object with center=False and kernel="precomputed" fitted on the explicitly
+     normalised kernel; new samples are passed as c.transform(k(Xn, X)) *)
+  Theorem C05_center_is_explicit_normalizer_object :
+    forall (kpre : kid), (forall A B, getk kpre A B = A) ->
+    forall (p : cargs kid num rg) (X Y : mat) (W : option mat),
+      p_center p = true ->
+      let K := getk (p_kernel p) X X in
+      let c := kn_fit K in
+      let s1 := fit (init p) X Y W in
+      let s3 := fit (init (as_normalized kpre p)) (kn_tr c K) Y W in
+      pkt s1 = pkt s3 /\ pky s1 = pky s3 /\ pty s1 = pty s3 /\ ptk s1 = ptk s3 /\
+      (forall Xn, transform s1 Xn = transform s3 (kn_tr c (getk (p_kernel p) Xn X))) /\
+      (forall Xn, predict s1 Xn = predict s3 (kn_tr c (getk (p_kernel p) Xn X))).
+  Proof. exact: center_is_explicit_normalizer. Qed.
+End ObjectModel.
+Print Assumptions C05_refit_is_fresh_fit.
+Print Assumptions C05_center_guard_reads_argument.
+Print Assumptions C05_stale_centerer_is_present.
+Print Assumptions C05_unfitted_and_unrefitted_raise.
+Print Assumptions C05_named_is_precomputed.
+Print Assumptions C05_center_is_explicit_normalizer_object.
+
+(* a concrete machine on which the stale attribute changes the answer of the hasattr variant while
+   the modelled transform agrees with the fresh object *)
+Example C05_object_model_nonvacuous :
+  let st := t_run (t_init t_p)
+              (@Fit nat bool unit unit 2%N 3%N None :: @SetParams nat bool unit unit (@center_off _ _ _ t_p)
+               :: @Fit nat bool unit unit 4%N 5%N None :: nil) in
+  t_transform st 7%N <> t_transform_hasattr st 7%N /\
+  t_transform st 7%N = t_transform (t_fit1 (t_init (@center_off _ _ _ t_p)) 4%N 5%N None) 7%N.
+Proof. exact tiny_hasattr_differs. Qed.
+
+(* ---- the rejection branches of fit (Model/KPCovRGuard.v) ---------------------------------------- *)
+Theorem C05_fit_accepts_iff :
+  forall g : gin, fit_guard g = Accept <-> regressor_ok g /\ ncomp_ok g.
+Proof. exact fit_accepts_iff. Qed.
+Print Assumptions C05_fit_accepts_iff.
+
+Theorem C05_ncomponents_rejection_iff :
+  forall g : gin, fit_guard g = RejNComponents <-> regressor_ok g /\ ~ ncomp_ok g.
+Proof. exact ncomp_rejection_iff. Qed.
+Print Assumptions C05_ncomponents_rejection_iff.
+
+Theorem C05_regressor_checks_first :
+  forall g : gin,
+    (g_reg g = GOther -> fit_guard g = RejRegressorType) /\
+    (forall f, g_reg g = GKrr false f -> fit_guard g = RejKernelMismatch).
+Proof. exact regressor_checks_first. Qed.
+Print Assumptions C05_regressor_checks_first.
+
+(* [guard_examples_stmt] (Proofs/KPCovRGuardP.v, Z literals): n=6, d=3, 2-D Y with p=2 -
+   a fitted KernelRidge with matching shapes and n_components=2 is accepted, one whose dual_coef_ is
+   1-D is refused with the dimension error, n_components=7 is refused, 0 and None are accepted *)
+Example C05_guard_nonvacuous : guard_examples_stmt.
+Proof. exact guard_examples. Qed.
